@@ -12,6 +12,7 @@ from proof_generation.stateful_interpreter import StatefulInterpreter
 PRIMS = ['evar', 'svar', 'symbol', 'metavar', 'implies', 'app', 'exists', 'mu', 'esubst', 'ssubst', 'prop1', 'prop2',
          'prop3', 'modus_ponens', 'exists_quantifier', 'exists_generalization', 'instantiate', 'instantiate_pattern',
          'pop', 'save', 'load', 'publish_proof', 'publish_axiom', 'publish_claim', 'into_claim_phase', 'into_proof_phase']
+FULL = {'load', 'save', 'publish_axiom', 'publish_claim', 'publish_proof', 'instantiate', 'exists_generalization', 'into_claim_phase', 'into_proof_phase'}
 PHASE = {ExecutionPhase.Gamma: 'gamma', ExecutionPhase.Claim: 'claim', ExecutionPhase.Proof: 'proof'}
 
 
@@ -66,11 +67,21 @@ def make_tracing(base):
                 v = sink.getvalue()
                 new = v[self._pos.get(id(sink), 0):]
                 self._pos[id(sink)] = len(v)
+            n = len(self._events)
+            full = getattr(self, '_full_always', False) or n % 8 == 0 or name in FULL or out != 'ok'
             ev = {'m': name, 'out': out, 'bytes': list(new), 'phase': PHASE[self.phase], 'len': len(self.stack),
-                  'top': entry(B, self.stack[-1]) if self.stack else {'k': 'none', 'p': {'t': 'ev', 'i': 0}},
+                  'top': (entry(B, self.stack[-1]) if self.stack else {'k': 'none', 'p': {'t': 'ev', 'i': 0}}) if full
+                         else {'k': 'skip', 'p': {'t': 'ev', 'i': 0}},
                   'mem': [entry(B, x) for x in self.memory[self._memlen:]], 'memlen': len(self.memory),
-                  'claims': [B.to_json(c.pattern) for c in self.claims],
-                  'args': [jarg(B, a) for a in args]}
+                  'args': [jarg(B, a) for a in args] if getattr(self, '_log_args', False) else []}
+            ck = [id(c) for c in self.claims]
+            if ck != getattr(self, '_claims_key', None):      # the tracker's claim list changed (or first event)
+                self._claims_key = ck
+                ev['cc'] = True
+                ev['claims'] = [B.to_json(c.pattern) for c in self.claims]
+            else:
+                ev['cc'] = False
+                ev['claims'] = []
             self._memlen = len(self.memory)
             syms = getattr(self, '_symbol_identifiers', None)
             ev['syms'] = []
@@ -110,4 +121,6 @@ def new_serializer(bridge, phase='gamma', claims=()):
     first = {'gamma': 0, 'claim': 1, 'proof': 2}[phase]
     it = TracingSerializer(phase=ph, claims=[Claim(c) for c in claims], out=sinks[first], claim_out=sinks[1], proof_out=sinks[2])
     it._tr_init(bridge, sinks)
+    it._full_always = True
+    it._log_args = True
     return it, sinks
